@@ -83,6 +83,42 @@ pub fn run_case_c07(case: &Case, prog: &Prog, mode: &Mode) -> (CaseReport, Value
     if kind.is_async {
         spawn_sig = json!(asyncx::first_poll_arrivals(case, prog));
     }
+    // try-async macros: a branch fails while every other branch of the step is still pending at its
+    // first pending point. What the macro's future then does (the value it completes with, and how
+    // many of the pending points had to be opened before it completed) is compared within the class
+    let mut gated: Vec<Value> = Vec::new();
+    if kind.is_async && kind.is_try && prog.branches.len() >= 2 {
+        let stride = (ids.len() / 6).max(1);
+        for f in ids.iter().step_by(stride).take(6) {
+            let mut plan = Plan { bad: vec![*f], panic_at: None, gates: vec![], deep: false };
+            let exp = model::interpret(prog, &plan);
+            let Some(fs) = exp.fail_step else { continue };
+            let mut gates = Vec::new();
+            if let Some(se) = exp.steps.get(fs) {
+                for (b, bs) in se.branches.iter().enumerate() {
+                    if exp.failing.contains(&b) {
+                        continue;
+                    }
+                    if let Some(g) = bs.as_ref().and_then(|bs| bs.gates.first()) {
+                        gates.push(*g);
+                    }
+                }
+            }
+            if gates.is_empty() {
+                continue;
+            }
+            plan.gates = gates.clone();
+            let sch = asyncx::ASchedule { picks: vec![], knob: 0, gate_sel: 0 };
+            let ar = asyncx::run_async(case, prog, &plan, &exp, &sch, asyncx::What::Panic);
+            rep.runs += 1;
+            rep.class("async_try_failure_while_siblings_pending");
+            let out_s = match (&ar.outcome, &ar.panic_msg) {
+                (Some(o), _) => o.to_json().to_string(),
+                (None, p) => format!("no value:{:?}", p),
+            };
+            gated.push(json!({"bad": f, "gates": gates, "out": out_s.chars().take(160).collect::<String>(), "opened_before_completion": ar.arity.len()}));
+        }
+    }
     // stack headroom: the all-succeed plan once more, every callback using 256 KiB of stack, in a
     // child process (an overflow kills the process); plain and thread-spawning macros must agree
     let mut deep = Value::Null;
@@ -98,7 +134,7 @@ pub fn run_case_c07(case: &Case, prog: &Prog, mode: &Mode) -> (CaseReport, Value
     if rep.samples.is_empty() && !digests.is_empty() {
         rep.samples.push(json!({"plans": digests.len(), "first": digests[0]}));
     }
-    (rep, json!({"digests": digests, "spawn_sig": spawn_sig, "deep": deep}))
+    (rep, json!({"digests": digests, "spawn_sig": spawn_sig, "deep": deep, "gated": gated}))
 }
 
 // ------------------------------------------------------------------------------- C18
